@@ -142,8 +142,6 @@ class DeterministicActor(EvolvableNetwork):
             rescaled_action = low + (high - low) * (action - prescaled_min) / (
                 prescaled_max - prescaled_min
             )
-            # Floating point rounding may overshoot the ends of the interval by an ulp
-            rescaled_action = torch.max(torch.min(rescaled_action, high), low)
 
         return rescaled_action
 
